@@ -163,3 +163,25 @@ def dump(repo_rsass, target_dir, out_path):
     if p.returncode != 0:
         raise RuntimeError("MIR dump failed:\n" + p.stderr[-3000:])
     return out_path
+
+
+def dump_bin(crate_dir, target_dir, out_path, bin_name, fingerprint_prefix):
+    """MIR of a binary crate of the workspace (the command-line tool), regenerated from the current working tree."""
+    os.makedirs(target_dir, exist_ok=True)
+    fp = os.path.join(target_dir, "debug", ".fingerprint")
+    if os.path.isdir(fp):
+        for d in os.listdir(fp):
+            if d.startswith(fingerprint_prefix):
+                subprocess.run(["rm", "-rf", os.path.join(fp, d)])
+    env = dict(os.environ)
+    env["CARGO_TARGET_DIR"] = target_dir
+    env["CARGO_NET_OFFLINE"] = "true"
+    env.pop("RUSTFLAGS", None)
+    env.pop("RUSTUP_TOOLCHAIN", None)
+    cmd = ["cargo", "+nightly", "rustc", "--locked", "--offline", "--bin", bin_name, "--",
+           "-Zunpretty=mir", "-C", "debug-assertions=off", "-C", "overflow-checks=on"]
+    with open(out_path, "w") as out:
+        p = subprocess.run(cmd, cwd=crate_dir, env=env, stdout=out, stderr=subprocess.PIPE, text=True)
+    if p.returncode != 0:
+        raise RuntimeError("MIR dump of %s failed:\n" % bin_name + p.stderr[-3000:])
+    return out_path
